@@ -216,6 +216,9 @@ class Sym:
     def real(s): return s
     @property
     def imag(s): return 0
+    # numpy scalars expose shape/ndim; code that handles "scalar or array" results relies on it
+    shape = ()
+    ndim = 0
 
     # --- numpy ufunc hooks for object arrays ---------------------------------------
     def sqrt(s): return _mk(uf('sqrt')(_toreal(s.t)))
